@@ -182,6 +182,7 @@ type routerRig struct {
 	results []string
 	typed   bool // use the generated typed accessors (Add<Client>, Remove<Client>, Get<Client>)
 	chain   bool // children are generated wrappers around an inner router that holds the fake client
+	cb      func(router.Change) // runs inside the onChange callback after the change was logged (re-entrant callbacks)
 }
 
 func (g *routerRig) idOf(c any) string {
@@ -216,6 +217,9 @@ func newRig(e entry, fb, fac string, typedFactory bool) *routerRig {
 			a = "A"
 		}
 		g.log = append(g.log, tilde(c.Name)+":"+g.idOf(c.Old)+":"+g.idOf(c.New)+":"+a)
+		if g.cb != nil {
+			g.cb(c)
+		}
 	})}
 	if f := factoryKind(fb, 2000, g.mk, &g.nfb); f != nil {
 		opts = append(opts, router.WithFallback(f))
@@ -233,57 +237,63 @@ func newRig(e entry, fb, fac string, typedFactory bool) *routerRig {
 
 func (g *routerRig) applyOps(ops string) error {
 	for _, o := range splitList(ops, ",") {
-		p := strings.Split(o, ":")
-		if len(p) < 2 {
-			return fmt.Errorf("bad op %q", o)
+		res, err := g.doOp(o)
+		if err != nil {
+			return err
 		}
-		n := unTilde(p[1])
-		g.pool[n] = true
-		switch p[0] {
-		case "a":
-			id, err := strconv.Atoi(p[2])
-			if err != nil {
-				return err
-			}
-			if g.typed && g.e.AddTyped != nil {
-				g.results = append(g.results, "p"+g.idOf(g.e.AddTyped(g.r, n, g.mk(id))))
-			} else {
-				g.results = append(g.results, "p"+g.idOf(g.r.Add(n, g.mk(id))))
-			}
-		case "r":
-			if g.typed && g.e.RemoveTyped != nil {
-				g.results = append(g.results, "p"+g.idOf(g.e.RemoveTyped(g.r, n)))
-			} else {
-				g.results = append(g.results, "p"+g.idOf(g.r.Remove(n)))
-			}
-		case "h":
-			if g.r.Has(n) {
-				g.results = append(g.results, "bT")
-			} else {
-				g.results = append(g.results, "bF")
-			}
-		case "g":
-			var c any
-			var err error
-			if g.typed && g.e.GetTyped != nil {
-				c, err = g.e.GetTyped(g.r, n)
-			} else {
-				c, err = g.r.Get(n)
-			}
-			if err != nil {
-				if status.Code(err) == codes.NotFound && c == nil {
-					g.results = append(g.results, "nf")
-				} else {
-					g.results = append(g.results, "?"+status.Code(err).String())
-				}
-			} else {
-				g.results = append(g.results, "g"+g.idOf(c))
-			}
-		default:
-			return fmt.Errorf("bad op %q", o)
-		}
+		g.results = append(g.results, res)
 	}
 	return nil
+}
+
+// doOp executes one operation token (a:<name>:<id>, r:<name>, h:<name>, g:<name>) and returns its result token.
+func (g *routerRig) doOp(o string) (string, error) {
+	p := strings.Split(o, ":")
+	if len(p) < 2 {
+		return "", fmt.Errorf("bad op %q", o)
+	}
+	n := unTilde(p[1])
+	g.pool[n] = true
+	switch p[0] {
+	case "a":
+		if len(p) < 3 {
+			return "", fmt.Errorf("bad op %q", o)
+		}
+		id, err := strconv.Atoi(p[2])
+		if err != nil {
+			return "", err
+		}
+		if g.typed && g.e.AddTyped != nil {
+			return "p" + g.idOf(g.e.AddTyped(g.r, n, g.mk(id))), nil
+		}
+		return "p" + g.idOf(g.r.Add(n, g.mk(id))), nil
+	case "r":
+		if g.typed && g.e.RemoveTyped != nil {
+			return "p" + g.idOf(g.e.RemoveTyped(g.r, n)), nil
+		}
+		return "p" + g.idOf(g.r.Remove(n)), nil
+	case "h":
+		if g.r.Has(n) {
+			return "bT", nil
+		}
+		return "bF", nil
+	case "g":
+		var c any
+		var err error
+		if g.typed && g.e.GetTyped != nil {
+			c, err = g.e.GetTyped(g.r, n)
+		} else {
+			c, err = g.r.Get(n)
+		}
+		if err != nil {
+			if status.Code(err) == codes.NotFound && c == nil {
+				return "nf", nil
+			}
+			return "?" + status.Code(err).String(), nil
+		}
+		return "g" + g.idOf(c), nil
+	}
+	return "", fmt.Errorf("bad op %q", o)
 }
 
 // stateString reads the registry back purely through the public API (Has, then Remove) — call last.
@@ -359,6 +369,7 @@ type routeOutcome struct {
 	cancelled bool
 	recvs     int
 	hasName   bool
+	events    []string
 }
 
 func showCalls(sd protoreflect.ServiceDescriptor, calls []call, req proto.Message) string {
@@ -496,7 +507,7 @@ func runRoute(e entry, c routeCase) (out routeOutcome, err error) {
 	if t, ok := parseOptTok(cp[5]); ok {
 		plan.Trailer = tokMD("t", t)
 	}
-	ss := &fakeServerStream{ctx: ctx, req: req, failAt: -1}
+	ss := &fakeServerStream{ctx: ctx, req: req, failAt: -1, rec: g.rec}
 	if t, ok := parseOptTok(kp[0]); ok {
 		ss.sendHeaderErr = tokErr(t, rng)
 	}
@@ -555,8 +566,18 @@ func runRoute(e entry, c routeCase) (out routeOutcome, err error) {
 	if len(ss.setHeader) > 0 {
 		hdr += "+SetHeader"
 	}
-	out.answer = fmt.Sprintf("calls=%s hdr=%s sent=%s sends=%d recvs=%d tr=%s st=%s cancel=%s %s",
-		showCalls(sd, g.rec.calls, orig), hdr, commaList(sent), ss.sends, g.rec.recvs, tr, errTok(rerr, unTilde(c.Name)), cancelS, g.stateString())
+	evS := "-"
+	if len(g.rec.events) > 0 {
+		evS = strings.Join(g.rec.events, ".")
+	}
+	if c.Chain {
+		// the fakes sit behind a wrapper + inner router: their calls run on the wrapper's handler goroutine,
+		// decoupled from the outer forwarder's
+		evS = "na"
+	}
+	out.events = append([]string(nil), g.rec.events...)
+	out.answer = fmt.Sprintf("calls=%s hdr=%s sent=%s sends=%d recvs=%d tr=%s st=%s cancel=%s ev=%s %s",
+		showCalls(sd, g.rec.calls, orig), hdr, commaList(sent), ss.sends, g.rec.recvs, tr, errTok(rerr, unTilde(c.Name)), cancelS, evS, g.stateString())
 	return
 }
 
@@ -759,6 +780,36 @@ func monitorRoute(mon *lib.Monitor, e entry, c routeCase, o routeOutcome) {
 			}
 		} else if !sameStatus(o.err, p.Final) {
 			viol("status-altered", "the child's final status must pass through unaltered", fmt.Sprint(p.Final), fmt.Sprint(o.err))
+		}
+	}
+	if !c.Chain {
+		// order of the forwarder's calls: the header is passed on before the first message is pulled from the
+		// child; every Send directly follows the Recv that produced its message; the trailer comes last
+		firstRecv, hdrAt, lastRecv := -1, -1, -1
+		for i, ev := range o.events {
+			switch ev {
+			case "r":
+				if firstRecv < 0 {
+					firstRecv = i
+				}
+				lastRecv = i
+			case "H":
+				if hdrAt < 0 {
+					hdrAt = i
+				}
+			case "s":
+				if i == 0 || o.events[i-1] != "r" {
+					viol("send-without-recv", "every message sent to the caller directly follows the Recv that produced it", "r then s", strings.Join(o.events, "."))
+				}
+			case "T":
+				if i < lastRecv || i != len(o.events)-1 {
+					viol("trailer-not-last", "the trailer is set after the child's last Recv, as the last call", "T last", strings.Join(o.events, "."))
+				}
+			}
+		}
+		if firstRecv >= 0 && (hdrAt < 0 || hdrAt > firstRecv) {
+			viol("header-held-back", "the child's header must be sent to the caller (SendHeader) before the first message is pulled from the child, so that a caller can read it while the child is quiet",
+				"o.ch.H before the first r", strings.Join(o.events, "."))
 		}
 	}
 	if cancelled {
@@ -980,6 +1031,13 @@ func runForward(f lib.Flags, res *lib.Result, drv *lib.Driver) {
 	for i, p := range batch {
 		if p.c.Chain {
 			ans[i] = strings.Replace(strings.Replace(ans[i], "cancel=true", "cancel=na", 1), "cancel=false", "cancel=na", 1)
+			fs := strings.Fields(ans[i])
+			for j, x := range fs {
+				if strings.HasPrefix(x, "ev=") {
+					fs[j] = "ev=na"
+				}
+			}
+			ans[i] = strings.Join(fs, " ")
 		}
 		tie.Record(p.e.id()+"/"+p.c.Method+"/"+caseShape(p.c), true, p.c, ans[i], p.o.answer)
 		if p.c.Chain {
